@@ -21,6 +21,9 @@ CHECKS = {
  "C05": dict(design="§5 C05", engine="XH",
              technique="CrossHair (z3) symbolic execution of SQLRepo.add_file/_add_zids + the NewZorgNotesEvent write-back over solver-chosen page scenarios, rewritten file recompiled with the real compiler and compared field by field with the indexed notes",
              note="stubs: in-memory FS, json shim, hash = identity, clock, SQL session/PageConverter; the ORM/SQLite round trip is not claimed (replay only); scenario menus are the bound"),
+ "C06": dict(design="§5 C06", engine="XH",
+             technique="CrossHair (z3) symbolic execution of reindex_database + write-back as one inductive step from every pair of invariant-satisfying per-page states (files, index, hash map), plain and explicit-path runs",
+             note="stubs: recording repo (SQL deletions/converters not claimed), three-line-page reader for walk_zorg_page, _check_for_modified_notes no-op, in-memory FS, hash = identity; 2 pages"),
 }
 NA = {
  "C13": "crash points between external effects (SQLite transactions, OS file writes) cannot be made symbolic: the effects are C-level/ORM internals; with them concrete a symbolic crash index is realised at the first effect, which is enumeration of faulted runs, a different technique (DESIGN.md §8)",
